@@ -9,6 +9,6 @@ for s in $SEEDS; do for id in $IDS; do
   t0=$(date +%s)
   out=$(VERIF_SEED=$s ./check $id --tier $TIER 2>&1); rc=$?
   echo "seed=$s $id exit=$rc $(( $(date +%s) - t0 ))s $(echo "$out" | grep -E '^\[C' | head -1)"
-  if [ $rc -ne 0 ]; then echo "$out" | grep -E "failure|HARNESS|VIOLATION" | head -8; cp -r "$VERIF_OUT/replays" "/tmp/quiet_fail_${id}_$s" 2>/dev/null; fi
+  if [ $rc -ne 0 ]; then echo "$out" | grep -E "failure|HARNESS|VIOLATION|Error|note:" | head -12; echo "$out" | tail -5 | sed 's/^/    | /'; cp -r "$VERIF_OUT/replays" "/tmp/quiet_fail_${id}_$s" 2>/dev/null; fi
 done; done
 rm -rf "$VERIF_OUT"
